@@ -1,0 +1,15 @@
+//go:build verif
+
+package plonk
+
+import (
+	gl "github.com/wormhole-foundation/example-near-light-client/goldilocks"
+	"github.com/wormhole-foundation/example-near-light-client/plonk/gates"
+	"github.com/wormhole-foundation/example-near-light-client/variables"
+)
+
+// Verification hook (build tag verif): exported wrapper, no logic.
+
+func (p *PlonkChip) VerifEvalVanishingPoly(vars gates.EvaluationVars, proofChallenges variables.ProofChallenges, openings variables.OpeningSet, zetaPowN gl.QuadraticExtensionVariable) []gl.QuadraticExtensionVariable {
+	return p.evalVanishingPoly(vars, proofChallenges, openings, zetaPowN)
+}
